@@ -260,6 +260,8 @@ def parse_template(path):
                     fd.nocanary = True
                 elif k == 'splitmatch':
                     fd.split_match = int(d[1])
+                elif k == 'splitalso':
+                    fd.split_also = (int(d[1]), l.strip()[3:].strip()[len('splitalso'):].strip()[len(d[1]):].strip())
                 elif k == 'split':
                     fd.split = int(d[1])
                     fd.split_stub = l.strip()[3:].strip()[len('split'):].strip()[len(d[1]):].strip()
@@ -581,14 +583,30 @@ def split_by_arms(full, full_lines, line_metas, fd, item, canary):
     line_of.append(ln)
     parts = []
     stub_meta = {'item': item, 'origin': 'stub', 'tag': None, 'props': fd.props}
-    for part in range(nparts):
+    # `splitalso K STUB`: a second match (typically the body of an earlier loop) whose arms are real in
+    # ONE extra part only - in which all arms of the primary match are cut - and cut in every other
+    # part. The loop around it is then proved inductive once; the other parts use its invariant.
+    arms2 = []
+    if getattr(fd, 'split_also', None):
+        k2, stub2 = fd.split_also
+        if len(mms) < k2:
+            raise LostAnchor("splitalso: no match #%d in %s" % (k2, item))
+        arms2, _, _ = match_arms(full, mask, sig_br + mms[k2 - 1].start())
+    extra = 1 if (arms2 and not canary) else 0
+    for part in range(nparts + extra):
+        cuts = []   # (arrow_end, body_end, stub)
+        for idx, (h, a, e) in enumerate(arms):
+            if part >= nparts or assign[idx] != part:
+                cuts.append((a, e, fd.split_stub))
+        for (h, a, e) in arms2:
+            if part < nparts:
+                cuts.append((a, e, stub2))
+        cuts.sort()
         pieces = []   # (text, origin_line or None)
         pos = 0
-        for idx, (h, a, e) in enumerate(arms):
-            if assign[idx] == part:
-                continue
+        for (a, e, st) in cuts:
             pieces.append((full[pos:a], pos))
-            pieces.append((' ' + fd.split_stub, None))
+            pieces.append((' ' + st, None))
             pos = e
         pieces.append((full[pos:], pos))
         # rename
